@@ -368,6 +368,18 @@ func formDataBody(bodies map[string]*openapi3.SchemaRef, reqs map[string]bool, c
 	}
 }
 
+// schemaOfComponents looks a schema up by name; components may be nil and an entry unresolved.
+func schemaOfComponents(components *openapi3.Components, name string) (*openapi3.SchemaRef, bool) {
+	if components == nil {
+		return nil, false
+	}
+	val, ok := components.Schemas[name]
+	if !ok || val == nil || val.Value == nil {
+		return nil, false
+	}
+	return val, true
+}
+
 func getParameterNameFromNewRef(ref string) string {
 	cleanPath := strings.TrimPrefix(ref, "#/components/schemas/")
 	pathSections := strings.SplitN(cleanPath, "/", 1)
@@ -899,7 +911,8 @@ func FromV3Schemas(schemas map[string]*openapi3.SchemaRef, components *openapi3.
 func FromV3SchemaRef(schema *openapi3.SchemaRef, components *openapi3.Components) (*openapi2.SchemaRef, *openapi2.Parameter) {
 	if ref := schema.Ref; ref != "" {
 		name := getParameterNameFromNewRef(ref)
-		if val, ok := components.Schemas[name]; ok {
+		// (no components: FromV3RequestBodyFormData converts the items of a form array without them)
+		if val, ok := schemaOfComponents(components, name); ok {
 			if val.Value.Format == "binary" {
 				v2Ref := strings.Replace(ref, "#/components/schemas/", "#/parameters/", 1)
 				return nil, &openapi2.Parameter{Ref: v2Ref}
